@@ -67,7 +67,7 @@ func checkC06(c *Ctx) error {
 					continue
 				}
 				if v, m := q(f.X, "fail_"+f.Ev.CallKey, en.X); v == smt.Sat {
-					ic.report(map[string]string{"kind": "dependent-invoked", "thread": threadKind(en.Thread)}, m, "dep-"+en.Ev.Prov)
+					ic.report(map[string]string{"kind": "dependent-invoked", "thread": threadKind(en.Thread), "_consumer": en.Ev.Prov, "_producer": f.Ev.Prov}, m, "dep-"+en.Ev.Prov)
 				}
 			}
 		}
